@@ -39,6 +39,42 @@ def check(ctx):
     wrapper_shape(ctx, repo, itf)
     not_twice(ctx, repo, itf, arf)
     missing_is_error(ctx, itf, arf, spec_var)
+    spec_selection(ctx, s)
+    no_rounding_inside_rules(ctx, repo)
+
+
+def spec_selection(ctx, s):
+    from .c07 import _selector
+
+    ctx.rule("RSEL", "the rounding loader takes, per function, the latest dated spec on or before the policy date - and none when every spec is dated later (a missing spec must stay missing, so that it is an error)")
+    _selector(ctx, s.repo.module("policy_environment.py"), s.em.facts.rounding_loader, "RSEL")
+
+
+ROUNDERS = {"round", "ceil", "floor", "rint", "trunc", "around", "fix"}
+
+
+def no_rounding_inside_rules(ctx, repo):
+    """NR: expected count zero - a policy rule that rounds its own amount is rounded even with rounding=False
+    and escapes the dated specs.  (`int(...)`, `//` and comparisons are not rounding of an amount.)"""
+    ctx.rule("NR", "no policy rule (or helper in a policy module) calls round / ceil / floor / rint / trunc: rounding of amounts happens only in the wrapper that `rounding=False` switches off")
+    n = 0
+    fns = [(r.mod, r.node, r.qual) for r in repo.rules]
+    seen = {id(r.node) for r in repo.rules}
+    for m in {r.mod.rel: r.mod for r in repo.rules}.values():
+        for name, fd in m.functions.items():
+            if id(fd) not in seen:
+                fns.append((m, fd, f"{m.rel}:{name}"))
+    for m, fd, qual in fns:
+        n += 1
+        for c in ast.walk(fd):
+            if isinstance(c, ast.Call):
+                fname = ast.unparse(c.func)
+                last = fname.split(".")[-1]
+                if last in ROUNDERS and (fname == last and last == "round" or fname.split(".")[0] in ("np", "numpy", "math", "jnp") or (isinstance(c.func, ast.Attribute) and last == "round" and not c.args)):
+                    ctx.ob("NR", ok=False, distinct=(qual, ast.unparse(c)[:60]))
+                    ctx.violation("NR", f"{qual}|{ast.unparse(c)[:80]}", m.loc(c) + f" {qual.split(':')[-1]}", f"`{ast.unparse(c)[:80]}` rounds inside the rule: the amount stays rounded when the simulation is run with rounding=False and ignores the dated rounding specs")
+    ctx.ob("NR", ok=True, distinct="functions scanned", n=n)
+    ctx.floor("NR", 300)
 
 
 # ------------------------------------------------------------------ RW
@@ -229,7 +265,7 @@ def _canon(t):
     return t
 
 
-def _term(e, env):
+def _term(e, env, cx=None):
     if isinstance(e, ast.Name):
         if e.id in env:
             return env[e.id]
@@ -237,7 +273,7 @@ def _term(e, env):
     if isinstance(e, ast.Constant) and isinstance(e.value, (int, float)):
         return ("num", e.value)
     if isinstance(e, ast.BinOp):
-        a, b = _term(e.left, env), _term(e.right, env)
+        a, b = _term(e.left, env, cx), _term(e.right, env, cx)
         if isinstance(e.op, ast.Add):
             return ("add", (a, b))
         if isinstance(e.op, ast.Mult):
@@ -248,31 +284,63 @@ def _term(e, env):
     if isinstance(e, ast.Call):
         f = e.func
         if isinstance(f, ast.Attribute) and f.attr in ("ceil", "floor", "round", "rint", "around") and isinstance(f.value, ast.Name) and f.value.id in ("np", "numpy", "math") and len(e.args) == 1 and not e.keywords:
-            return ("fn", {"rint": "round", "around": "round"}.get(f.attr, f.attr), _term(e.args[0], env))
+            return ("fn", {"rint": "round", "around": "round"}.get(f.attr, f.attr), _term(e.args[0], env, cx))
         if isinstance(f, ast.Attribute) and f.attr == "round" and not e.args and not e.keywords:
-            return ("fn", "round", _term(f.value, env))
+            return ("fn", "round", _term(f.value, env, cx))
+        if isinstance(f, ast.Name) and cx and f.id in cx["funcs"] and f.id != "func":
+            r = _call_helper(cx["funcs"][f.id], e, env, cx)
+            if r is not None:
+                return r
         # an unknown call applied to known terms is an opaque transformation of them
         return ("opaque", ast.unparse(e)[:80])
     return ("opaque", ast.unparse(e)[:60])
 
 
-def _run_wrapper(stmts, env, direction, dname):
+def _has_raise(t):
+    if t == ("raise",):
+        return True
+    return isinstance(t, tuple) and any(_has_raise(x) for x in t if isinstance(x, tuple))
+
+
+def _call_helper(h, call, env, cx):
+    """inline a module-level helper: parameters bound to the argument terms; the parameter that receives the
+    direction name plays the direction inside"""
+    names = [a.arg for a in h.args.posonlyargs + h.args.args + h.args.kwonlyargs]
+    bound = dict(zip(names, call.args))
+    bound.update({kw.arg: kw.value for kw in call.keywords if kw.arg})
+    env2 = {k: _term(v, env, cx) for k, v in bound.items()}
+    dn = next((k for k, v in bound.items() if isinstance(v, ast.Name) and v.id == cx["dname"]), "\0none")
+    if cx.get("depth", 0) > 4:
+        raise _Unsupported("helper nesting")
+    return _run_wrapper(h.body, env2, cx["direction"], dn, {**cx, "dname": dn, "depth": cx.get("depth", 0) + 1})
+
+
+def _run_wrapper(stmts, env, direction, dname, cx=None):
     """symbolic execution of the wrapper body for one concrete direction; returns the returned term or None"""
+    cx = cx or {"funcs": {}, "direction": direction, "dname": dname}
     for st in stmts:
         if isinstance(st, ast.Expr) and isinstance(st.value, ast.Constant):
+            continue
+        if isinstance(st, ast.Expr) and isinstance(st.value, ast.Call) and isinstance(st.value.func, ast.Name) and st.value.func.id in cx["funcs"]:
+            # a helper called for its checks only: it may raise for this direction, it returns nothing
+            r = _call_helper(cx["funcs"][st.value.func.id], st.value, env, cx)
+            if r == ("raise",):
+                return r
             continue
         if isinstance(st, ast.Assign) and len(st.targets) == 1 and isinstance(st.targets[0], ast.Name):
             v = st.value
             if isinstance(v, ast.Call) and isinstance(v.func, ast.Name) and v.func.id == "func":
                 env[st.targets[0].id] = ("sym", "X")
             else:
-                env[st.targets[0].id] = _term(v, env)
+                env[st.targets[0].id] = _term(v, env, cx)
+                if _has_raise(env[st.targets[0].id]):
+                    return ("raise",)  # a helper evaluated for the value raised
             continue
         if isinstance(st, ast.AugAssign) and isinstance(st.target, ast.Name):
             cur = env.get(st.target.id)
             if cur is None:
                 raise _Unsupported("augmented assignment to unknown name")
-            rhs = _term(st.value, env)
+            rhs = _term(st.value, env, cx)
             if isinstance(st.op, ast.Add):
                 env[st.target.id] = ("add", (cur, rhs))
             elif isinstance(st.op, ast.Mult):
@@ -281,7 +349,8 @@ def _run_wrapper(stmts, env, direction, dname):
                 raise _Unsupported("augmented operator")
             continue
         if isinstance(st, ast.Return):
-            return _term(st.value, env)
+            r = _term(st.value, env, cx) if st.value is not None else None
+            return ("raise",) if _has_raise(r) else r
         if isinstance(st, ast.Raise):
             return ("raise",)
         if isinstance(st, ast.If):
@@ -301,7 +370,7 @@ def _run_wrapper(stmts, env, direction, dname):
                 if all(isinstance(x, ast.Raise) for x in st.body) and not st.orelse:
                     continue
                 raise _Unsupported("test " + ast.unparse(t)[:60])
-            r = _run_wrapper(st.body if verdict else st.orelse, env, direction, dname)
+            r = _run_wrapper(st.body if verdict else st.orelse, env, direction, dname, cx)
             if r is not None:
                 return r
             continue
@@ -319,7 +388,7 @@ def _run_wrapper(stmts, env, direction, dname):
                     chosen = c
                     break
             if chosen is not None:
-                r = _run_wrapper(chosen.body, env, direction, dname)
+                r = _run_wrapper(chosen.body, env, direction, dname, cx)
                 if r is not None:
                     return r
             continue
@@ -342,7 +411,7 @@ def wrapper_shape(ctx, repo, itf):
     for d, f in want_fn.items():
         env = {base: ("sym", "B"), offset: ("sym", "O")}
         try:
-            got = _run_wrapper(w.body, env, d, direction)
+            got = _run_wrapper(w.body, env, d, direction, {"funcs": itf.functions, "direction": d, "dname": direction})
         except _Unsupported as e:
             raise AnalysisError(f"rounding wrapper contains a construct the symbolic evaluation does not model ({e}); WRAP needs a re-read") from e
         want = _canon(("add", (("sym", "O"), ("mul", (("sym", "B"), ("fn", f, ("div", ("sym", "X"), ("sym", "B"))))))))
@@ -352,7 +421,7 @@ def wrapper_shape(ctx, repo, itf):
             ctx.violation("WRAP", f"direction|{d}|{_show(got)}", itf.loc(w), f"for direction {d!r} the wrapper returns {_show(got)}; statutory rounding is O + B*{f}(X/B) with X the unrounded value, B the base, O the offset")
     env = {base: ("sym", "B"), offset: ("sym", "O")}
     try:
-        got = _run_wrapper(w.body, env, "sideways", direction)
+        got = _run_wrapper(w.body, env, "sideways", direction, {"funcs": itf.functions, "direction": "sideways", "dname": direction})
     except _Unsupported as e:
         raise AnalysisError(f"rounding wrapper: {e}") from e
     ok = got == ("raise",)
